@@ -1056,7 +1056,11 @@ def _codon_ctor(interp, selfv, args, kwargs):
     v = args[0] if args else kwargs.get("codon")
     if isinstance(v, Obj) and v.cls_name == "Codon":
         v = v.fields["_val"]
-    return Obj("Codon", _val=str(v).upper())
+    key = str(v).upper()
+    pool = interp.__dict__.setdefault("_codon_pool", {})
+    if key not in pool:
+        pool[key] = Obj("Codon", _val=key)  # the library interns codons (Codon.__new__/_singletons_)
+    return pool[key]
 
 
 def std_interp(repo, extra_hooks=None, **kw) -> Interp:
